@@ -39,5 +39,13 @@ NewestWins == \A k \in Keys : \A i \in 1..NT : (Ts[i][k] # ABSENT /\ \A j \in (i
 NoForeignValue == \A e \in {ScanOf(Ts, Keys)[i] : i \in 1..Len(ScanOf(Ts, Keys))} : \E i \in 1..NT : Ts[i][e[1]] = e[2]
 ScanIsGetOfLive == \A i \in 1..Len(ScanOf(Ts, Keys)) : SuperGet(Ts, ScanOf(Ts, Keys)[i][1]) = ScanOf(Ts, Keys)[i][2]
 CompactIsScan == CompactOf(Ts, Keys, "latest") = ScanOf(Ts, Keys)
+\* A stacked reader is itself a table reader and may be a member of another stack.  As the OLDEST member it is indistinguishable from its own
+\* members spliced in: Get / Contains see its newest entry (tombstones included), scans see its live entries, and whatever it hides is hidden by
+\* nothing older.  (Nested anywhere else it is NOT: its scans omit a tombstone that would have to shadow an older member.)
+GetView(ts)  == [k \in Keys |-> Latest(ts, k)]
+ScanView(ts) == [k \in Keys |-> IF Latest(ts, k) = TOMB THEN ABSENT ELSE Latest(ts, k)]
+NestedOldestIsFlat == \A j \in 1..NT : LET inner == SubSeq(Ts, 1, j)  rest == SubSeq(Ts, j + 1, NT) IN
+                         /\ \A k \in Keys : Latest(<<GetView(inner)>> \o rest, k) = Latest(Ts, k)
+                         /\ ScanOf(<<ScanView(inner)>> \o rest, Keys) = ScanOf(Ts, Keys)
 Emit == ~done => PrintT(<<"BEH", ToJson(Ts)>>)
 =============================================================================
